@@ -1009,6 +1009,46 @@ func trustedTemplateTypes(fact string, props []string, dirs ...string) {
 	emitStrList(fact, props, out)
 }
 
+// structTags: every field of every struct type declared in one file, with its tag text: "Type.Field `tag`". The decoders
+// (mapstructure, yaml) find settings by these tags; a misspelt or "corrected" tag silently re-routes or drops a setting.
+func structTags(fact string, props []string, rel string) {
+	f := parse(rel)
+	if f == nil {
+		fail(fact, props, rel+" does not parse")
+		return
+	}
+	var out []string
+	for _, d := range f.Decls {
+		gd, ok := d.(*ast.GenDecl)
+		if !ok {
+			continue
+		}
+		for _, sp := range gd.Specs {
+			ts, ok := sp.(*ast.TypeSpec)
+			if !ok {
+				continue
+			}
+			st, ok := ts.Type.(*ast.StructType)
+			if !ok {
+				continue
+			}
+			for _, fld := range st.Fields.List {
+				tag := ""
+				if fld.Tag != nil {
+					tag = strings.Trim(fld.Tag.Value, "`")
+				}
+				if len(fld.Names) == 0 {
+					out = append(out, ts.Name.Name+".(embedded) "+tag)
+				}
+				for _, n := range fld.Names {
+					out = append(out, ts.Name.Name+"."+n.Name+" "+tag)
+				}
+			}
+		}
+	}
+	emitStrList(fact, props, out)
+}
+
 // textTemplateImporters: every non-test file of the given directories that imports text/template (which does not escape).
 func textTemplateImporters(fact string, props []string, dirs ...string) {
 	out := []string{}
